@@ -344,3 +344,8 @@ func TestSub_lengths(t *testing.T) {
 }
 
 func TestReplay(t *testing.T) { vk.Replay(t) }
+
+// native coverage-guided fuzzing over the same generator and oracle (thorough tier)
+var subFuzz = vk.Register(&vk.Sub[Case]{Name: "roundtrip_fuzz", Gen: func(t *rapid.T) Case { return drawCase(t, "roundtrip") }, Check: check})
+
+func FuzzSub_roundtrip_fuzz(f *testing.F) { vk.RunFuzz(f, subFuzz) }
